@@ -1775,4 +1775,125 @@ Proof.
 Qed.
 
 End D.
+
+(* ================================================================== *)
+(* the end of a round is unique                                         *)
+(* ================================================================== *)
+Definition eqk (t1 t2 : store) : Prop :=
+  vars t1 = vars t2 /\ csets t1 = csets t2 /\ length (constrs t1) = length (constrs t2) /\
+  forall c, let k1 := constr_of t1 c in let k2 := constr_of t2 c in
+    k_elim k1 = k_elim k2 /\ k_alts k1 = k_alts k2 /\ k_strict k1 = k_strict k2 /\ k_done k1 = k_done k2 /\
+    follow t1 (k_ref k1) = follow t2 (k_ref k2) /\
+    (k_ref k1 = k_ref k2 \/ (k_elim k1 = true /\ k_done k1 = true)).
+
+Lemma fin_settled_nd t c : FinT t -> In c (cset_of t i) -> k_done (constr_of t c) = false.
+Proof.
+  intros (_ & _ & _ & St) Hc. pose proof (St c Hc) as X. unfold settled in X.
+  destruct (k_elim (constr_of t c)); apply X.
+Qed.
+
+Lemma fin_alts t c l0 : FinT t -> In c (cset_of s0 i) -> k_elim (constr_of s0 c) = true ->
+  k_done (constr_of s0 c) = false -> k_alts (constr_of s0 c) = obs l0 ->
+  k_alts (constr_of t c) = obs (filter (kp H t (rho c)) (mins_of l0)) /\
+  (k_done (constr_of t c) = true <-> length (k_alts (constr_of t c)) = 1).
+Proof.
+  intros F Hc E D Ea. pose proof F as (FS & FP & FT & FL').
+  destruct (t_alts t c l0 F Hc E D Ea) as (lt & Elt & Nlt & NDlt & Hlt & Hsing).
+  destruct (alts0 c Hc E) as (l0' & _ & Ea' & Pi0). rewrite Ea in Ea'. apply obs_inj in Ea'. subst l0'.
+  assert (Form : exists P, lt = filter P (mins_of l0)).
+  { destruct (st_elm t FS c l0 Hc E D Ea) as ([X|(r & P & d & X)] & _).
+    - rewrite X, Ea in Elt. apply obs_inj in Elt. subst lt.
+      assert (Dt : k_done (constr_of t c) = false) by (rewrite X; exact D).
+      pose proof (FL' c (t_in t c F Hc Dt)) as St. unfold settled in St. rewrite (kind_elim t c FS Hc E) in St.
+      destruct St as (_ & _ & l & El & An & _). rewrite X, Ea in El. apply obs_inj in El. subst l.
+      exists (fun _ => true). rewrite (mins_of_anti H l0 An). symmetry. apply filter_all.
+    - rewrite X in Elt. cbn [k_alts] in Elt. apply obs_inj in Elt. eauto. }
+  destruct Form as (P & EP). split.
+  - rewrite Elt, EP. f_equal. apply filter_ext_in. intros m Hm.
+    destruct (P m) eqn:Pm.
+    + symmetry. apply (Hlt m). rewrite EP. apply filter_In. auto.
+    + destruct (kp H t (rho c) m) eqn:K; [|reflexivity]. exfalso.
+      assert (N : ~ In (ob m) (k_alts (constr_of t c))).
+      { rewrite Elt, In_obs, EP. intros X. apply filter_In in X. destruct X. congruence. }
+      rewrite (st_keeps t FS c l0 m Hc E D Ea Hm N) in K. discriminate.
+  - split.
+    + intros Dt. destruct (t2_dcl _ _ FT c Hc E D Dt) as (m & Am & _). rewrite Am. reflexivity.
+    + intros Ln. destruct (k_done (constr_of t c)) eqn:Dt; [reflexivity|exfalso].
+      pose proof (FL' c (t_in t c F Hc Dt)) as St. unfold settled in St. rewrite (kind_elim t c FS Hc E) in St.
+      destruct St as (_ & _ & l & El & _ & Le & _). rewrite El in Ln. unfold FL.obs in Ln. rewrite map_length in Ln. lia.
+Qed.
+
+Lemma fin_sub_done t c : FinT t -> In c (cset_of s0 i) -> k_elim (constr_of s0 c) = false ->
+  (k_done (constr_of t c) = true <-> vd t (constr_of t c) = PDone).
+Proof.
+  intros F Hc E. pose proof F as (FS & (_ & _ & Sd) & FT & FL'). pose proof (kind_sub t c FS E) as Ek. split.
+  - intros D. apply Sd; auto.
+  - intros V. destruct (k_done (constr_of t c)) eqn:D; [reflexivity|exfalso].
+    pose proof (FL' c (t_in t c F Hc D)) as St. unfold settled in St. rewrite Ek in St. destruct St as (_ & X). congruence.
+Qed.
+
+Theorem Fin_unique t1 t2 : FinT t1 -> FinT t2 -> Dom t1 t2 -> Dom t2 t1 -> eqk t1 t2.
+Proof.
+  intros F1 F2 D12 D21. pose proof F1 as (S1 & P1 & T1 & St1). pose proof F2 as (S2 & P2 & T2' & St2).
+  assert (Ecell : forall w, cell_of t1 w = cell_of t2 w).
+  { intros w. apply crel_antisym; [apply P1|apply P2|apply D12|apply D21]. }
+  assert (Ev : vars t1 = vars t2).
+  { apply (nth_ext _ _ dcell dcell); [rewrite (st_len t1 S1), (st_len t2 S2); reflexivity|].
+    intros n _. apply (Ecell n). }
+  assert (Ecn : forall c,
+    let k1 := constr_of t1 c in let k2 := constr_of t2 c in
+    k_elim k1 = k_elim k2 /\ k_alts k1 = k_alts k2 /\ k_strict k1 = k_strict k2 /\ k_done k1 = k_done k2 /\
+    follow t1 (k_ref k1) = follow t2 (k_ref k2) /\
+    (k_ref k1 = k_ref k2 \/ (k_elim k1 = true /\ k_done k1 = true))).
+  { intros c. cbv zeta. destruct (in_dec Nat.eq_dec c (cset_of s0 i)) as [Hc|Hc].
+    2:{ rewrite (st_out t1 S1 c Hc), (st_out t2 S2 c Hc). repeat split; auto. apply follow_vars. exact Ev. }
+    destruct (k_elim (constr_of s0 c)) eqn:E.
+    2:{ destruct (sub_rec t1 c S1 E) as (R1 & A1 & X1). destruct (sub_rec t2 c S2 E) as (R2 & A2 & X2).
+        rewrite (kind_sub t1 c S1 E), (kind_sub t2 c S2 E), R1, R2, A1, A2, X1, X2.
+        repeat split; auto; [|apply follow_vars; exact Ev].
+        assert (V : vd t1 (constr_of t1 c) = vd t2 (constr_of t2 c)) by (apply pfc_vars; congruence).
+        pose proof (fin_sub_done t1 c F1 Hc E) as Q1. pose proof (fin_sub_done t2 c F2 Hc E) as Q2.
+        rewrite V in Q1. destruct (k_done (constr_of t1 c)), (k_done (constr_of t2 c)); auto.
+        - symmetry. apply Q2, Q1. reflexivity.
+        - apply Q1, Q2. reflexivity. }
+    destruct (k_done (constr_of s0 c)) eqn:D.
+    { rewrite (st_don t1 S1 c E D), (st_don t2 S2 c E D). repeat split; auto. apply follow_vars. exact Ev. }
+    destruct (alts0 c Hc E) as (l0 & _ & Ea & _).
+    destruct (fin_alts t1 c l0 F1 Hc E D Ea) as (A1 & Dn1). destruct (fin_alts t2 c l0 F2 Hc E D Ea) as (A2 & Dn2).
+    assert (EA : k_alts (constr_of t1 c) = k_alts (constr_of t2 c)).
+    { rewrite A1, A2. f_equal. apply filter_ext. intros m. apply kp_vars. exact Ev. }
+    assert (ED : k_done (constr_of t1 c) = k_done (constr_of t2 c)).
+    { rewrite EA in Dn1. destruct (k_done (constr_of t1 c)), (k_done (constr_of t2 c)); auto.
+      - symmetry. apply Dn2, Dn1. reflexivity.
+      - apply Dn1, Dn2. reflexivity. }
+    pose proof (lw_kw t1 (proj1 P1) c (in_range0 t1 c S1 Hc)) as Sh1. unfold shape in Sh1. rewrite (kind_elim t1 c S1 Hc E) in Sh1.
+    pose proof (lw_kw t2 (proj1 P2) c (in_range0 t2 c S2 Hc)) as Sh2. unfold shape in Sh2. rewrite (kind_elim t2 c S2 Hc E) in Sh2.
+    destruct Sh1 as (l1 & _ & El1), Sh2 as (l2 & _ & El2).
+    destruct (elm_form t1 c l0 l1 S1 Hc E D Ea El1) as (X1 & _). destruct (elm_form t2 c l0 l2 S2 Hc E D Ea El2) as (X2 & _).
+    assert (EF : follow t1 (k_ref (constr_of t1 c)) = follow t2 (k_ref (constr_of t2 c))).
+    { rewrite (proj2 (st_elm t1 S1 c l0 Hc E D Ea)), (proj2 (st_elm t2 S2 c l0 Hc E D Ea)). apply follow_vars. exact Ev. }
+    rewrite (kind_elim t1 c S1 Hc E), (kind_elim t2 c S2 Hc E).
+    split; [reflexivity|split; [exact EA|split; [congruence|split; [exact ED|split; [exact EF|]]]]].
+    destruct (k_done (constr_of t1 c)) eqn:D1; [right; auto|left].
+    pose proof (St1 c (t_in t1 c F1 Hc D1)) as Y1. unfold settled in Y1. rewrite (kind_elim t1 c S1 Hc E) in Y1.
+    assert (D2 : k_done (constr_of t2 c) = false) by congruence.
+    pose proof (St2 c (t_in t2 c F2 Hc D2)) as Y2. unfold settled in Y2. rewrite (kind_elim t2 c S2 Hc E) in Y2.
+    destruct Y1 as (_ & En1 & _), Y2 as (_ & En2 & _). congruence. }
+  split; [exact Ev|split; [|split; [rewrite (st_clen t1 S1), (st_clen t2 S2); reflexivity|exact Ecn]]].
+  apply (nth_ext _ _ [] []); [rewrite (st_cslen t1 S1), (st_cslen t2 S2); reflexivity|].
+  intros j _. change (cset_of t1 j = cset_of t2 j).
+  destruct (Nat.eq_dec j i) as [->|Nj]; [|rewrite (st_cso t1 S1 j Nj), (st_cso t2 S2 j Nj); reflexivity].
+  destruct (st_csi t1 S1) as (Q1 & E1). destruct (st_csi t2 S2) as (Q2 & E2). rewrite E1, E2.
+  apply filter_ext_in. intros c Hc.
+  assert (M : forall t Q, FinT t -> cset_of t i = filter Q (cset_of s0 i) -> (Q c = true <-> k_done (constr_of t c) = false)).
+  { intros t Q F Eq. split.
+    - intros Qc. apply (fin_settled_nd t c F). rewrite Eq. apply filter_In. auto.
+    - intros Dn. pose proof (t_in t c F Hc Dn) as X. rewrite Eq in X. apply filter_In in X. apply X. }
+  pose proof (M t1 Q1 F1 E1) as M1. pose proof (M t2 Q2 F2 E2) as M2.
+  destruct (Ecn c) as (_ & _ & _ & ED & _). rewrite ED in M1.
+  destruct (Q1 c), (Q2 c); auto.
+  - symmetry. apply M2, M1. reflexivity.
+  - apply M1, M2. reflexivity.
+Qed.
+
 End R.
